@@ -14,6 +14,10 @@ extern unsigned int isal_crypto_get_version(void);
 extern const char *isal_crypto_get_version_str(void);
 extern int __real__aes_self_tests(void), __real__sha_self_tests(void);
 
+/* the status word: exported accessors in the x86 configuration, a function-local static of isal_self_tests in the portable one */
+static volatile int *gen_status;
+static void set_status(int v) { if (g_noarch) *gen_status = v; else asm_set_self_tests_status(v); }
+static int get_status(void) { return g_noarch ? *gen_status : asm_check_self_tests_status(); }
 enum { W_REAL, W_FAIL_FAST, W_FAIL_AFTER_RUN, W_PASS_FAST, W_FAIL_SHA_ONLY };
 static int wrap_mode, n_aes, n_sha, resolved_before_selftest, in_selftest;
 static int any_slot_resolved(void)
@@ -28,7 +32,8 @@ int __wrap__aes_self_tests(void)
         if (any_slot_resolved()) resolved_before_selftest = any_slot_resolved();
         in_selftest = 1;
         int r = 0;
-        if (wrap_mode == W_REAL) r = __real__aes_self_tests();
+        if (g_noarch) r = (wrap_mode == W_FAIL_AFTER_RUN || wrap_mode == W_FAIL_FAST);   /* no AES unit in the portable configuration: the AES group is always a stub */
+        else if (wrap_mode == W_REAL) r = __real__aes_self_tests();
         else if (wrap_mode == W_FAIL_AFTER_RUN) { __real__aes_self_tests(); r = 1; }
         else if (wrap_mode == W_FAIL_FAST) r = 1;
         in_selftest = 0;
@@ -60,11 +65,12 @@ static char rbuf[300];
 
 static void one(entry_t *e, int state, uint64_t c)
 {
+        if (!e->fn) return;     /* not part of this configuration */
         rng_t r; rng_seed(&r, mix64(g_seed ^ 0xf195, mix64(c, (uint64_t) (e - entries) * 8 + (uint64_t) state)));
         char key[220];
         int ok_alg = approved(e->name);
         /* valid objects are prepared while the module is operational */
-        asm_set_self_tests_status(0);
+        set_status(0);
         alloc_valid(e, &r);
         uint64_t v[10] = { 0 };
         for (int i = 0; i < e->nargs; i++) v[i] = e->a[i].kind == 'S' ? e->a[i].valid : (uint64_t) (uintptr_t) bufs[i];
@@ -84,14 +90,14 @@ static void one(entry_t *e, int state, uint64_t c)
         /* enter the state */
         n_aes = n_sha = resolved_before_selftest = 0;
         switch (state) {
-        case ST_FAILED: asm_set_self_tests_status(1); break;
-        case ST_PASSED: asm_set_self_tests_status(0); break;
-        case ST_NOTRUN_FAIL: asm_set_self_tests_status(2); { uint32_t k = rng_below(&r, 3); wrap_mode = k == 0 ? W_FAIL_FAST : k == 1 ? W_FAIL_AFTER_RUN : W_FAIL_SHA_ONLY; } break;
-        case ST_NOTRUN_PASS: asm_set_self_tests_status(2); wrap_mode = rng_below(&r, 4) ? W_PASS_FAST : W_REAL; break;
-        case ST_NOTRUN_NATFAIL: asm_set_self_tests_status(2); wrap_mode = W_REAL; break;
+        case ST_FAILED: set_status(1); break;
+        case ST_PASSED: set_status(0); break;
+        case ST_NOTRUN_FAIL: set_status(2); { uint32_t k = rng_below(&r, 3); wrap_mode = k == 0 ? W_FAIL_FAST : k == 1 ? W_FAIL_AFTER_RUN : W_FAIL_SHA_ONLY; } break;
+        case ST_NOTRUN_PASS: set_status(2); wrap_mode = rng_below(&r, 4) ? W_PASS_FAST : W_REAL; break;
+        case ST_NOTRUN_NATFAIL: set_status(2); wrap_mode = W_REAL; break;
         }
         unsigned flipped = 0;
-        if (state == ST_NOTRUN_NATFAIL) { flipped = 1 + rng_below(&r, 15); for (int k = 0; k < 4; k++) if (flipped >> k & 1) *kat[k] ^= 0x01; }
+        if (state == ST_NOTRUN_NATFAIL) { flipped = g_noarch ? 1 : 1 + rng_below(&r, 15); for (int k = 0; k < 4; k++) if (flipped >> k & 1) *kat[k] ^= 0x01; }
         disp_rearm_all();
         snprintf(rbuf, sizeof rbuf, "{\"engine\":\"fips\",\"entry\":\"%s\",\"state\":\"%s\",\"seed\":%llu,\"case\":%llu}", e->name, st_name[state], (unsigned long long) g_seed, (unsigned long long) c);
         snprintf(cur_replay, sizeof cur_replay, "%s", rbuf);
@@ -129,7 +135,8 @@ static void one(entry_t *e, int state, uint64_t c)
                 }
         }
         if (ok_alg && (state == ST_NOTRUN_FAIL || state == ST_NOTRUN_PASS || state == ST_NOTRUN_NATFAIL)) {
-                if (n_aes != 1 || n_sha != 1) {
+                /* the portable driver stops after a failed AES group */
+                if (n_aes != 1 || (n_sha != 1 && !(g_noarch && n_sha == 0 && state == ST_NOTRUN_FAIL && wrap_mode != W_FAIL_SHA_ONLY))) {
                         snprintf(key, sizeof key, "fips-selftest-count %s %s", e->name, st_name[state]);
                         out_viol("C13", key, rbuf, "first call of %s with self-tests not yet run entered the AES self-tests %d time(s) and the SHA self-tests %d time(s)", e->name, n_aes, n_sha);
                 }
@@ -149,19 +156,20 @@ static void one(entry_t *e, int state, uint64_t c)
                         }
                         for (int i = 0; i < e->nargs; i++) if (bufs[i] && memcmp(bufs[i], copies[i], e->a[i].size)) { snprintf(key, sizeof key, "fips-output-touched %s %s arg%d", e->name, st_name[state], i); out_viol("C13", key, rbuf, "%s changed argument %d after failed self-tests", e->name, i); }
                 }
-                int s = asm_check_self_tests_status();
+                int s = get_status();
                 if (state != ST_NOTRUN_NATFAIL && s != (state == ST_NOTRUN_FAIL ? 1 : 0)) { snprintf(key, sizeof key, "fips-verdict-not-published %s %s", e->name, st_name[state]); out_viol("C13", key, rbuf, "after the first call the published status is %d", s); }
         }
         if (!ok_alg && (n_aes || n_sha) ) { /* running the self-tests from a non-approved entry is allowed; nothing to check */ }
-        asm_set_self_tests_status(0);
+        set_status(0);
         free_valid(e);
 }
 
 static void xts_same_keys(entry_t *e, uint64_t c)
 {
+        if (!e->fn) return;
         rng_t r; rng_seed(&r, mix64(g_seed ^ 0x5a3e, mix64(c, (uint64_t) (e - entries))));
         char key[200];
-        asm_set_self_tests_status(0);
+        set_status(0);
         for (int variant = 0; variant < 3; variant++) {
                 alloc_valid(e, &r);
                 size_t ksz = e->a[0].size;
@@ -192,6 +200,7 @@ int main(int argc, char **argv)
 #ifndef VERIF_FIPS
         out_err("fips engine must be linked against the FIPS_MODE build");
 #endif
+        if (g_noarch) { gen_status = sym_addr_prefix("self_tests_status."); if (!gen_status) out_err("status word of the portable self-test driver not found"); if (*gen_status != 2) out_err("status word does not hold NOT_DONE at start-up"); }
         for (int k = 0; k < 4; k++) { kat[k] = sym_addr(kat_sym[k]); if (!kat[k]) out_err("known-answer data %s of the self-tests not found", kat_sym[k]); }
         for (uint64_t c = g_from; c < g_from + g_count; c++) {
                 for (int i = 0; i < NENT; i++) {
@@ -202,7 +211,7 @@ int main(int argc, char **argv)
                 for (int st = 0; st < ST_NOTRUN_NATFAIL; st++) {
                         n_aes = n_sha = 0;
                         int fail = st == ST_FAILED || st == ST_NOTRUN_FAIL;
-                        asm_set_self_tests_status(st == ST_FAILED ? 1 : st == ST_PASSED ? 0 : 2);
+                        set_status(st == ST_FAILED ? 1 : st == ST_PASSED ? 0 : 2);
                         wrap_mode = st == ST_NOTRUN_FAIL ? ((c & 1) ? W_FAIL_FAST : W_FAIL_SHA_ONLY) : st == ST_NOTRUN_PASS ? ((c & 3) == 0 ? W_REAL : W_PASS_FAST) : W_REAL;
                         disp_rearm_all();
                         LABEL("isal_self_tests state=%s", st_name[st]);
@@ -210,14 +219,14 @@ int main(int argc, char **argv)
                         cur_label[0] = 0;
                         out_count("fips_calls", 2);
                         if (rc != (fail ? ISAL_CRYPTO_ERR_SELF_TEST : 0) || rc2 != rc) { char key[100]; snprintf(key, sizeof key, "fips-self-tests-verdict %s", st_name[st]); out_viol("C13", key, NULL, "isal_self_tests in state '%s' returned %d then %d", st_name[st], rc, rc2); }
-                        if ((st >= ST_NOTRUN_FAIL) && (n_aes != 1 || n_sha != 1)) out_viol("C13", "fips-self-tests-count", NULL, "isal_self_tests ran the AES/SHA self-tests %d/%d times for two calls", n_aes, n_sha);
+                        if ((st >= ST_NOTRUN_FAIL) && (n_aes != 1 || (n_sha != 1 && !(g_noarch && n_sha == 0 && wrap_mode == W_FAIL_FAST)))) out_viol("C13", "fips-self-tests-count", NULL, "isal_self_tests ran the AES/SHA self-tests %d/%d times for two calls", n_aes, n_sha);
                         if (!isal_crypto_get_version() || !isal_crypto_get_version_str()) out_viol("C13", "fips-version", NULL, "version query failed in state %s", st_name[st]);
                 }
-                asm_set_self_tests_status(0);
+                set_status(0);
         }
         printf("{\"t\":\"called\",\"names\":[");
-        for (int i = 0; i < NENT; i++) printf("%s\"%s\"", i ? "," : "", entries[i].name);
-        printf(",\"isal_self_tests\",\"isal_crypto_get_version\",\"isal_crypto_get_version_str\"]}\n");
+        for (int i = 0; i < NENT; i++) if (entries[i].fn) printf("\"%s\",", entries[i].name);
+        printf("\"isal_self_tests\",\"isal_crypto_get_version\",\"isal_crypto_get_version_str\"]}\n");
         out_count("entries_described", (uint64_t) NENT);
         out_sample("{\"engine\":\"fips\",\"entries\":%d,\"states\":[\"failed\",\"passed\",\"not-run+injected-failure\",\"not-run+pass\"],\"cases_per_cell\":%llu}", NENT, (unsigned long long) g_count);
         out_finish();
